@@ -29,6 +29,12 @@ class C04(Prop):
 
     def generate(self, tier, rng):
         N = 2500 if tier == "quick" else 40000
+        for n in ([70001] if tier == "quick" else [65537, 70001, 131073]):
+            # one long vector per run (any chunking of the evaluation must cover every element)
+            kind, h, lv = self.configs(rng)
+            base = [sc.gen_pair(rng, kind, float(h), lv) for _ in range(50)]
+            pairs = [base[(3 * i + i // 50) % 50] for i in range(n)]
+            yield {"stream": "domain", "kind": kind, "h": h, "level": lv, "y": [p[0] for p in pairs], "z": [p[1] for p in pairs]}
         for k in range(N):
             kind, h, lv = self.configs(rng)
             n = rng.randint(1, 6)
